@@ -26,9 +26,9 @@ import (
 	lss3 "github.com/benbjohnson/litestream/s3"
 
 	"lsverif/ev"
-	"lsverif/vclock"
 	"lsverif/fakes3"
 	"lsverif/sched"
+	"lsverif/vclock"
 )
 
 func init() { register("c20", c20) }
